@@ -292,3 +292,20 @@ RECIPES += [
      "    peaks_array = (PyArrayObject *)PyArray_FROM_OTF(peaks_obj, NPY_DOUBLE, requirements);\n\n    if (peaks_array == NULL) return NULL;\n",
      "C entry point: requirement word built in a local with |="),
 ]
+
+_C_FLAGTEST = ("    if (!(PyArray_FLAGS(peaks_array) & NPY_ARRAY_C_CONTIGUOUS)) {\n        PyArrayObject *tmp = (PyArrayObject *)PyArray_Copy(peaks_array);\n"
+               "        Py_DECREF(peaks_array);\n        peaks_array = tmp;\n        if (peaks_array == NULL) return NULL;\n    }\n")
+_C_FROMARRAY = ("    {\n        PyArrayObject *tmp = (PyArrayObject *)PyArray_FROM_O(peaks_obj);\n        if (tmp == NULL) return NULL;\n"
+                "        peaks_array = (PyArrayObject *)PyArray_FromArray(tmp, PyArray_DescrFromType(NPY_DOUBLE), %s);\n        Py_DECREF(tmp);\n    }\n"
+                "    if (peaks_array == NULL) return NULL;\n")
+RECIPES += [
+    ("C05", "neutral", [], C, _C_OTF, _otf("NPY_ARRAY_ALIGNED", _C_FLAGTEST), "C entry point: `PyArray_FLAGS(a) & NPY_ARRAY_C_CONTIGUOUS` tested, PyArray_Copy otherwise"),
+    ("C05", "neutral", [], C, _C_OTF, _C_FROMARRAY % "NPY_ARRAY_IN_ARRAY", "C entry point: PyArray_FROM_O, then PyArray_FromArray with NPY_ARRAY_IN_ARRAY"),
+    ("C05", "neutral", [], C, _C_OTF, "    peaks_array = (PyArrayObject *)PyArray_CopyFromObject(peaks_obj, NPY_DOUBLE, 0, 0);\n\n    if (peaks_array == NULL) return NULL;\n",
+     "C entry point: PyArray_CopyFromObject (ENSURECOPY | DEFAULT | ENSUREARRAY in the numpy header)"),
+    ("C05", "break", ["C05-R8"], C, _C_OTF, _C_FROMARRAY % "NPY_ARRAY_ALIGNED", "C entry point: PyArray_FromArray without a contiguity bit"),
+    ("C05", "break", ["C05-R8"], C, _C_OTF, "    peaks_array = (PyArrayObject *)PyArray_FromObject(peaks_obj, NPY_DOUBLE, 0, 0);\n\n    if (peaks_array == NULL) return NULL;\n",
+     "C entry point: PyArray_FromObject (BEHAVED | ENSUREARRAY in the numpy header: no contiguity bit)"),
+    ("C05", "break", ["C05-R8"], C, _C_OTF, _otf("NPY_ARRAY_ALIGNED", _C_FLAGTEST.replace("NPY_ARRAY_C_CONTIGUOUS", "NPY_ARRAY_ALIGNED")),
+     "C entry point: the flag tested before the copy is the alignment bit, not a contiguity bit"),
+]
